@@ -49,9 +49,12 @@ func c03Case(c *core.Ctx, id string) {
 	reason := c03Reasons[i%len(c03Reasons)]
 	g := &pj.Gen{R: c.Rand(id)}
 	base := filepath.Join(c.Scratch, fmt.Sprintf("c03-%d", i))
-	defer os.RemoveAll(base)
+	if os.Getenv("VERIF_KEEP") == "" {
+		defer os.RemoveAll(base)
+	}
 	work := filepath.Join(base, "work")
 	snap := filepath.Join(base, "snap")
+	snapPre, havePre := filepath.Join(base, "snap-pre"), false
 	s := pj.NewSession(work)
 	p := g.Project()
 	e := pj.NewEngine(s, p, g)
@@ -74,6 +77,13 @@ func c03Case(c *core.Ctx, id string) {
 			e.Build(pickTarget(e), pj.BuildOpt{})
 		}
 		e.Build(target, pj.BuildOpt{})
+		// the fully built state before the edit that makes targets run (for the long-lived-project variant below)
+		switch reason {
+		case "env-change", "source-change", "dependency-reexecuted", "output-missing":
+			if pj.CopyDir(work, snapPre) == nil {
+				havePre = true
+			}
+		}
 		ok := false
 		for try := 0; try < 40 && !ok; try++ {
 			switch reason {
@@ -203,19 +213,37 @@ func c03Case(c *core.Ctx, id string) {
 	type variant struct {
 		cpus    int
 		failing []string
+		live    bool
 	}
-	variants := []variant{{1, nil}, {4, nil}}
+	variants := []variant{{1, nil, false}, {4, nil, false}}
 	if len(labels) > 0 {
 		// the same enumeration while one body fails: the failure path writes its own record
-		variants = append(variants, variant{1, []string{labels[r.IntN(len(labels))]}})
+		variants = append(variants, variant{1, []string{labels[r.IntN(len(labels))]}, false})
+	}
+	if havePre {
+		// the interrupted build is the second build of one long-lived project (`dawn watch`): the process first built
+		// everything, then the edit arrived, the project was Reload()ed, and the rebuild is killed
+		variants = append(variants, variant{1, nil, true})
 	}
 	for vi, va := range variants {
 		cpus := va.cpus
+		warm := ""
+		restore := restore
+		if va.live {
+			warm = filepath.Join(snap, "tree")
+			restore = func() {
+				os.RemoveAll(work)
+				pj.CopyDir(snapPre, work)
+				e.M = model0.Clone()
+				e.Steps = e.Steps[:steps0]
+			}
+			c.Count("scenarios_with_a_long_lived_project_variant", 1)
+		}
 		restore()
 		countFile := filepath.Join(base, fmt.Sprintf("count-%d", vi))
 		os.Remove(countFile)
 		e.ChildBuild = childBuilder(c, cpus)
-		_, res, alive := e.Build(target, pj.BuildOpt{Child: true, Always: always, Failing: va.failing, Env: []string{"VERIF_COUNT=" + countFile}})
+		_, res, alive := e.Build(target, pj.BuildOpt{Child: true, Always: always, Failing: va.failing, WarmOverlay: warm, Env: []string{"VERIF_COUNT=" + countFile}})
 		if !alive || res.LoadErr != "" || (res.RunErr != "" && va.failing == nil) {
 			viol("counting-run-fails", map[string]any{"error": res.LoadErr + res.RunErr})
 			return
@@ -232,7 +260,7 @@ func c03Case(c *core.Ctx, id string) {
 			specs = append(specs, h)
 		}
 		sort.Strings(specs)
-		if (cpus == 4 || va.failing != nil) && len(specs) > 20 && c.Quick() {
+		if (cpus == 4 || va.failing != nil || va.live) && len(specs) > 20 && c.Quick() {
 			// limit 4 repeats the enumeration under real overlap; quick samples it
 			r.Shuffle(len(specs), func(a, b int) { specs[a], specs[b] = specs[b], specs[a] })
 			specs = specs[:20]
@@ -247,7 +275,7 @@ func c03Case(c *core.Ctx, id string) {
 		for _, spec := range specs {
 			restore()
 			e.ChildBuild = childBuilder(c, cpus)
-			st, _, alive := e.Build(target, pj.BuildOpt{Child: true, Always: always, NoCheck: true, Failing: va.failing, Env: []string{"VERIF_CRASH=" + spec}})
+			st, _, alive := e.Build(target, pj.BuildOpt{Child: true, Always: always, NoCheck: true, Failing: va.failing, WarmOverlay: warm, Env: []string{"VERIF_CRASH=" + spec}})
 			point := spec[:strings.Index(spec, "|")]
 			c.Count("killed_at:"+point, 1)
 			if alive {
@@ -269,7 +297,10 @@ func c03Case(c *core.Ctx, id string) {
 			c.Eval(key)
 			c.Count("kills", 1)
 			_ = st
-			if !recoverAndJudge(fmt.Sprintf("SIGKILL at %s (limit %d, failing bodies %v)", spec, cpus, va.failing), cpus) {
+			if va.live {
+				c.Count("kills_of_a_long_lived_project", 1)
+			}
+			if !recoverAndJudge(fmt.Sprintf("SIGKILL at %s (limit %d, failing bodies %v, long-lived project %v)", spec, cpus, va.failing, va.live), cpus) {
 				return
 			}
 		}
